@@ -85,7 +85,14 @@ def changed_old_lines(a, edits):
     ch = set()
     if not lines:
         return ch
+    # edits that touch (next starts where the previous ends) act as one replacement
+    merged = []
     for (s, e, new) in edits:
+        if merged and merged[-1][1] == s:
+            merged[-1] = (merged[-1][0], e, merged[-1][2] + new)
+        else:
+            merged.append((s, e, new))
+    for (s, e, new) in merged:
         for i in range(len(lines)):
             if starts[i] < e and starts[i] + len(lines[i]) > s:
                 ch.add(i)
@@ -315,6 +322,14 @@ def gen_edit_lists(ctx):
             rng.shuffle(edits)
         c = rng.choice([1, 2, 3, 3, 5])
         res.append((src, edits, c, mode))
+    # zero context lines (labelled stream: headers of hunks with an empty side)
+    for i in range(24 if ctx.tier == "quick" else 300):
+        src = gen_text(rng, "ascii", rng.choice([1, 3, 6, 12]))
+        lines = split_lines(src)
+        li = rng.randrange(len(lines) + 1)
+        s_ = sum(len(x) for x in lines[:li])
+        e_ = s_ + (len(lines[li]) if li < len(lines) and rng.random() < 0.6 else 0)
+        res.append((src, [(s_, e_, rng.choice([b"", b"X\n", b"p\nq\n"]))], 0, "zero-context"))
     # insertions at the same point (order provided must be kept)
     res.append((b"ab\n", [(1, 1, b"X"), (1, 1, b"Y")], 3, "same-point"))
     res.append((b"ab\n", [(1, 1, b"Y"), (1, 1, b"X")], 3, "same-point"))
@@ -360,12 +375,15 @@ def check_unified(ctx, a, edits, result, utext_hex, what, replay, dist, ctxlines
     except ValueError as ex:
         ctx.violation("unified:unparsable", "%s: unified output does not parse: %s" % (what, ex), replay)
         return
+    if ctxlines == 0 and any(k == "count" for k, _, _ in problems):
+        # root cause: String() prints "-l" / "+l" (count omitted = 1) for a side with no lines unless l == 1
+        ctx.violation("unified:zero-context-header", "%s: %s (a hunk side without lines is printed as a bare line number, "
+                      "which the format reads as one line)" % (what, [m_ for k, _, m_ in problems if k == "count"][0]), replay)
+        return
     for kind, hi, msg in problems:
         if kind == "newstart-after-join":
             ctx.violation("unified:new-start-line-after-joined-edits",
                           "%s: %s (toUnified does not advance the new-file line counter over the context lines that join two edits in one hunk)" % (what, msg), replay)
-        elif kind in ("count", "newstart") and ctxlines == 0:
-            ctx.violation("unified:zero-context-header", "%s: %s" % (what, msg), replay)
         else:
             ctx.violation("unified:" + kind, "%s: %s" % (what, msg), replay)
     if got is None:
@@ -452,8 +470,12 @@ def run(ctx):
             edits = parse_edits(f["E"])
         except Exception:
             ctx.violation("strings:unparsable-edits", r[:200], replay); continue
-        if f["G"] != "-" and sum(int(x.split(":")[2]) for x in f["G"].split(",")) < min(len(a), len(b)) // 3 and "limit" in kind:
-            dist["depth_limit_pairs"] += 1
+        if valid:
+            # a completed two-sided search ends with D <= 50 per side, i.e. at most ~100 unmatched elements in total;
+            # more unmatched elements than that means the depth limit was reached and the partial-lcs repair (fix()) ran
+            matched = 0 if f["G"] == "-" else sum(int(x.split(":")[2]) for x in f["G"].split(","))
+            if len(a.decode("utf-8")) + len(b.decode("utf-8")) - 2 * matched > 102:
+                dist["depth_limit_pairs"] += 1
         # 1. Apply(a, Strings(a,b)) == b
         if f["A"].startswith("ok:"):
             got = unhx(f["A"][3:])
